@@ -110,3 +110,12 @@ package service
 // the pointer to the default location control, so the request is decoded into that very object, not into a copy.
 //@ func (*Service).ProcessRequest
 //@   assert[C20+C14.loccontrol_updates_the_shared_control_in_place] at "call:Unmarshal@\"/api/sys/loccontrol\"": is(callarg(1), *core.Control) && callarg(1).(*core.Control) == ctl.DefaultLocControl
+
+// C13: "after a rejected or failed input the location keeps serving other requests": a request takes itself off the
+// pending-request count on every path (a count that only grows makes the listener refuse connections once a limit is set).
+//@ ghost pendingBalance int
+//@ func (*HTTPService).incPending
+//@   ghost-ensures pendingBalance == old(pendingBalance) + ite(add, 1, 0 - 1)
+//@   also-modifies pendingBalance
+//@ func (*HTTPService).ServeHTTP
+//@   ensures[C13.servehttp_takes_itself_off_the_pending_count] pendingBalance == old(pendingBalance)
